@@ -405,6 +405,24 @@ def native_awaited(w=None):
                 problems.append(f"[runtime] test ({kind}) in {src!r}: rendered {out!r} (expected {want!r}); warnings {never[:1]}")
             elif never:
                 problems.append(f"[fold] test ({kind}) in {src!r} renders correctly, but compiling it calls the test on the constant and drops the awaitable: {never[0]}")
+    # a test applied by select / reject / selectattr / rejectattr (hunt C36_4 = C22_2, filters.async_select_or_reject)
+    async def aodd(x):
+        await asyncio.sleep(0)
+        return x % 2 == 1
+
+    for src, want in (("{{ xs|select('aodd')|join }}", "13"), ("{{ xs|reject('aodd')|join }}", "2"), ("{{ xs|selectattr('real', 'aodd')|join }}", "13")):
+        env = Environment(enable_async=True)
+        env.tests["aodd"] = aodd
+        with warnings.catch_warnings(record=True) as ws:
+            warnings.simplefilter("always")
+            try:
+                out = asyncio.run(env.from_string(src).render_async(xs=[1, 2, 3]))
+            except Exception as ex:
+                out = f"{type(ex).__name__}: {ex}"
+            gc.collect()
+        never = [str(x.message) for x in ws if "never awaited" in str(x.message)]
+        if out != want or never:
+            problems.append(f"[select] async test through {src!r}: rendered {out!r} (expected {want!r}); warnings {never[:1]}")
     if w and w.get("class"):
         problems = [p_ for p_ in problems if p_.startswith(f"[{w['class']}]")]
     return (bool(problems), "; ".join(problems[:3]) or "every filter / test returning an awaitable is awaited in async mode")
@@ -416,7 +434,7 @@ def awaited_standin(task, tier, seed):
                        "and 3 kinds of test callables x 3 forms, rendered with render_async; oracle: the awaited value is rendered and no "
                        "'coroutine ... was never awaited' RuntimeWarning is emitted")
     rs = []
-    for cls, name in (("runtime", "C36.native.awaited.runtime"), ("fold", "C36.native.awaited.constant_fold")):
+    for cls, name in (("runtime", "C36.native.awaited.runtime"), ("fold", "C36.native.awaited.constant_fold"), ("select", "C36.native.awaited.select_reject")):
         v, d = native_awaited({"class": cls})
         rs.append(Res(name, "refuted" if v else "bounded-ok", "native", time.time() - t0, d[:700], "bounded", witness={"class": cls} if v else None))
     task.stats = {"seconds": round(time.time() - t0, 2)}
